@@ -149,13 +149,38 @@ def cohort_table(case):
     return impl.table_from_patients(pats, mods, lnls, ("ipsi", "contra"), cls == "Midline")
 
 
-def build_full(case, with_init=True):
+def _late_stage(case):
+    """a parametric T-stage that (in a deterministic third of the cases) is configured only AFTER a first evaluation"""
+    import hashlib
+    par = sorted(t for t, d in case["dists"].items() if "fam" in d)
+    if not par or case["cls"] == "HPVUnilateral" or case.get("named"):
+        return None
+    h = int(hashlib.sha1(json.dumps(jsonable([case["graph"], case["dists"], case["mods"]]), sort_keys=True).encode()).hexdigest()[:8], 16)
+    return par[h % len(par)] if h % 3 == 0 else None
+
+
+def build_full(case, with_init=True, history=False):
     """the object at construction: class/config/graph/distributions (c10.build) + modalities + cohort; then the
-    declared named_params and (with_init) the initial keyword set_params"""
-    m = build(case)
+    declared named_params and (with_init) the initial keyword set_params.
+    history=True (the object under test only, never the fresh references): one parametric T-stage starts as a frozen
+    distribution, a first likelihood(given_params=<own values>) is evaluated, and only then the T-stage gets its
+    parametric distribution (same final configuration; the set of parameters grew after the first evaluation)."""
+    late = _late_stage(case) if history else None
+    if late is not None:
+        c0 = dict(case)
+        c0["dists"] = {t: ({"frozen": [1.0] * (case["max_time"] + 1)} if t == late else d) for t, d in case["dists"].items()}
+        m = build(c0)
+    else:
+        m = build(case)
     for name, spec, sens, kind in case["mods"]:
         m.set_modality(name, spec, sens, kind)
     m.load_patient_data(cohort_table(case))
+    if late is not None:
+        try:
+            m.likelihood(given_params=[float(v) for v in m.get_params(as_dict=False)])
+        except Exception:  # noqa: BLE001
+            pass
+        impl.apply_dist(m, late, case["dists"][late])
     if with_init and case.get("init"):
         m.set_params(**{k: fv(v) for k, v in case["init"].items()})
     if case.get("named"):
@@ -249,7 +274,7 @@ def impl_eval(case):
         fails.append({"check": check, "step": k, "kind": kind, **kw})
 
     try:
-        m = build_full(case)
+        m = build_full(case, history=True)
     except Exception as e:  # noqa: BLE001
         fail("b", -1, "constructor", actual=f"building the model raised {impl.err_enum(e)}: {repr(e)[:200]}",
              expected="no exception")
@@ -578,10 +603,22 @@ def gen_step(rng, case, kls):
             bad_idx = [rng.choice(dpos)]
         else:
             bad_idx = [rng.randrange(n)]
+        # half of the invalid steps walk systematically through (kind of parameter) x (kind of invalid value), so that
+        # rare pairs (NaN for a micro modifier, +inf for mixing ...) occur in every run
+        forced = None
+        if rng.random() < 0.5:
+            global _SYS
+            _SYS += 1
+            classes = sorted({nm.rsplit("_", 1)[-1] for nm in names})
+            cl = classes[_SYS % len(classes)]
+            bad_idx = [rng.choice([i for i, nm in enumerate(names) if nm.rsplit("_", 1)[-1] == cl])]
+            forced = KINDS[(_SYS // len(classes)) % 5]
         if rng.random() < 0.15 and n > 1:
             bad_idx.append(rng.choice([i for i in range(n) if i != bad_idx[0]]))
         for j, i in enumerate(bad_idx):
             kk = rng.choice(KINDS if domain(case, names[i]) != "unit" else KINDS[:5])
+            if j == 0 and forced is not None:
+                kk = forced
             if j == 0:
                 kind = kk
             items[i][1] = cv(bad_value(rng, case, names[i], kk))
@@ -600,6 +637,7 @@ def gen_step(rng, case, kls):
     return st
 
 
+_SYS = 0
 STEP_KINDS = (["valid-full"] * 7 + ["invalid"] * 9 + ["valid-subset", "valid-short", "valid-surplus", "extra", "none"])
 
 
@@ -814,6 +852,9 @@ def call_text(case) -> str:
         return f"likelihood(given_params={g}" + ("" if st["log"] else ", log=False") + ")"
     parts = [f"m = {case['cls']}.{'trinary' if case['graph']['base'] == 3 else 'binary'}(graph={gen.graph_dict(case['graph'])}, {case['cfg']}, max_time={case['max_time']}); "
              f"distributions {case['dists']}; modality {case['mods']}; {len(case['patients'])} patient(s)"]
+    if _late_stage(case) is not None:
+        parts[0] += (f"; history: T-stage {_late_stage(case)!r} first held a frozen distribution, one likelihood(given_params=<own values>) "
+                     "was evaluated, then it got the parametric distribution above")
     if case.get("init"):
         parts.append(f"m.set_params(**{case['init']})")
     if case.get("named"):
